@@ -10,7 +10,9 @@ R19.2  the translator's float-immediate readers apply one 32/64-bit reversal und
        and none under little-endian
 R19.3  wasi.c never reinterprets guest memory as a multi-byte integer object (only byte pointers and the
        iN_load / iN_store helpers)
+R19.4  futex.c (memory.atomic.wait) reads the waited-on cell through i32/i64_atomic_load, not by reinterpreting memory->data
 """
+import re
 from .. import astdb, pe, emit, oracle, runtime, memrules as mr, ctyperules as ct
 from ..astdb import AnalysisBroken, kids, walk
 from ..pe import is_sym
@@ -231,7 +233,7 @@ BYTE_POINTEES = ('char', 'unsigned char', 'signed char', 'void', 'const char', '
                  'const signed char')
 
 
-def guest_pointer_casts(tu):
+def guest_pointer_casts(tu, suffix='wasi.c'):
     """all pointer conversions applied to an expression derived from wasmMemory.data: (node, pointee type)"""
     out = []
 
@@ -252,7 +254,7 @@ def guest_pointer_casts(tu):
         return False
     sites = 0
     for f in tu.functions.values():
-        if not (astdb.file_of(f) or '').endswith('wasi.c'):
+        if not (astdb.file_of(f) or '').endswith(suffix):
             continue
         for n in walk(f):
             if n.get('kind') in ('CStyleCastExpr', 'ImplicitCastExpr') and n.get('castKind') == 'BitCast':
@@ -286,6 +288,28 @@ def check_wasi(chk):
     chk.sample(dict(rule='R19.3', sites=sites, casts=[(fn, pt) for _, pt, fn in casts][:12]))
 
 
+def check_futex(chk):
+    """R19.4: memory.atomic.wait compares the cell with the expected value - futex.c must read it through the byte-order aware
+    iN_atomic_load helpers, never by reinterpreting memory->data as a multi-byte object"""
+    from .c17 import FUTEX_FLAGS
+    tu = astdb.dump_ast(astdb.src('futex/futex.c'), flags=FUTEX_FLAGS + ['-DWASM_ENDIAN=WASM_BIG_ENDIAN'], config='futex-be')
+    chk.unit(tu)
+    casts, sites = guest_pointer_casts(tu, 'futex.c')
+    bad = [(n, pt, fn) for n, pt, fn in casts if pt.replace('volatile ', '') not in BYTE_POINTEES]
+    for n, pt, fn in bad:
+        chk.fail('R19.4', '%s:%s' % (fn, astdb.line_of(n)),
+                 '%s reads or writes guest memory as %s without the byte reversal of the big-endian configuration: wait would compare another '
+                 'value than the module\'s own loads see' % (fn, pt), 'futex.c/%s:guest-cast-%s' % (fn, pt), astdb.loc_str(n))
+    # the cell is loaded by the runtime's atomic loads
+    f = tu.fn('wasmMemoryAtomicWait')
+    chk.fn('wasmMemoryAtomicWait')
+    loads = sorted({astdb.callee_name(c) for c in walk(astdb.fn_body(f)) if c.get('kind') == 'CallExpr' and
+                    re.fullmatch(r'i(32|64)_(atomic_)?load', astdb.callee_name(c) or '')})
+    chk.expect(any(l.startswith('i32') for l in loads) and any(l.startswith('i64') for l in loads) and not bad, 'R19.4', 'wait-reads-through-helpers',
+               'wasmMemoryAtomicWait loads the cell through %r (direct reinterpretations of memory->data: %d); expected the runtime\'s i32/i64 load '
+               'helpers, which apply the 32/64-bit reversal on big-endian hosts' % (loads, len(bad)), 'futex.c/wasmMemoryAtomicWait:cell-load')
+
+
 def run(chk):
     chk.explanation = (
         'w2c2_base.h is parsed for a big-endian target description on this host (no execution). Every load/store/atomic/RMW '
@@ -312,6 +336,8 @@ def run(chk):
     chk.expect(not n, 'R19.1', 'le:no-reversal', 'little-endian configuration applies %d byte reversals' % len(n), 'w2c2_base.h@le')
     check_translator_readers(chk)
     check_wasi(chk)
+    check_futex(chk)
     chk.floor('R19.1', 86)
+    chk.floor('R19.4', 1)
     chk.floor('R19.2', 6)
     chk.exhaustive = True
